@@ -64,9 +64,10 @@ theorem orElse_none {a : Option String} {b : Unit → Option String} (h : a = no
   subst h; rfl
 
 theorem verdict_none {m : Mon} {l : Line} {o : Obs} (h0 : vRollback m o = none) (h1 : vPause m l o = none)
-    (h2 : vList m l o = none) (h3 : vCap m l o = none) (h4 : vMig m l o = none) : verdict m l o = none := by
+    (h2 : vList m l o = none) (h2' : vListEv m l o = none) (h3 : vCap m l o = none) (h4 : vMig m l o = none) :
+    verdict m l o = none := by
   unfold verdict
-  rw [orElse_none h0, orElse_none h1, orElse_none h2, orElse_none h3, h4]
+  rw [orElse_none h0, orElse_none h1, orElse_none h2, orElse_none h2', orElse_none h3, h4]
 
 theorem vRollback_none {m : Mon} {o : Obs} (h : o.ok = false → m.prev = none ∨ m.prev = some o.st) :
     vRollback m o = none := by
@@ -84,6 +85,16 @@ theorem vPause_off {m : Mon} {l : Line} {o : Obs} (h : m.kind.hasPause = false) 
 theorem vList_off {m : Mon} {l : Line} {o : Obs} (h : m.kind.isList = false) : vList m l o = none := by
   unfold vList
   rw [if_pos (by simp [h])]
+
+theorem vListEv_off {m : Mon} {l : Line} {o : Obs} (h : m.kind.isList = false) : vListEv m l o = none := by
+  unfold vListEv
+  rw [if_pos (by simp [h])]
+
+theorem vListEv_rejected {m : Mon} {l : Line} {o : Obs} (h : o.ok = false) : vListEv m l o = none := by
+  unfold vListEv
+  by_cases hk : ¬ m.kind.isList
+  · rw [if_pos hk]
+  · rw [if_neg hk, if_neg (by simp [h]), if_neg (by simp [h])]
 
 theorem vCap_off {m : Mon} {l : Line} {o : Obs} (h : m.kind ≠ .cap) : vCap m l o = none := by
   unfold vCap
@@ -399,5 +410,153 @@ theorem bex_set_listed {c : Cfg} {s s' : LEx} {auth : List Nat} {u operator : Na
   cases on <;> simp only [BEx.apply] at h <;> obtain ⟨_, _, h⟩ := bind_eq_ok h <;> injection h with h <;> subst h
   · exact ⟨(unblockUser_listed s.t u).1, rfl⟩
   · exact ⟨(blockUser_listed s.t u).1, rfl⟩
+
+/-! ### list changes are idempotent, events included -/
+
+/-- the library function behind a list change (`ak`: allow list; `on`: allow / block) -/
+def setFn (ak on : Bool) : LTok → Nat → LTok :=
+  match ak, on with
+  | true, true => AllowList.allowUser
+  | true, false => AllowList.disallowUser
+  | false, true => BlockList.blockUser
+  | false, false => BlockList.unblockUser
+
+/-- a list change that asks for the status the account has returns the state itself; otherwise it appends
+exactly the matching event -/
+theorem setFn_facts (ak on : Bool) (s : LTok) (u : Nat) :
+    (s.listed u = on → setFn ak on s u = s) ∧
+    (setFn ak on s u).log = (if s.listed u = on then s.log else s.log ++ [evOf ak on u]) := by
+  cases ak <;> cases on <;> cases h : s.listed u <;>
+    simp [setFn, evOf, AllowList.allowUser, AllowList.disallowUser, BlockList.blockUser, BlockList.unblockUser, h]
+
+theorem isListEv_evOf (ak on : Bool) (u : Nat) : isListEv (evOf ak on u) = true := by
+  cases ak <;> cases on <;> rfl
+
+theorem setOf_setName (on w : Bool) : setOf (.gate (setName on w)) = some on := by
+  cases on <;> cases w <;> rfl
+
+theorem expected_noop {ak : Bool} {g : Nat → Bool} {l : Line} (h : noopF g l = true) : expectedEvF ak g l = [] := by
+  unfold noopF at h
+  unfold expectedEvF
+  split
+  · rename_i on u h1 h2
+    rw [h1, h2] at h
+    rw [if_pos (by simpa using h)]
+  · rfl
+
+/-- an accepted call of a list-gated token, in the terms of the event check: `lev` the list events it
+emitted, `unchanged`: the call left the whole state as it was -/
+structure ListEvFacts (ak : Bool) (listed : Nat → Bool) (l : Line) (lev : List GEvent) (unchanged : Prop) : Prop where
+  events : lev = expectedEvF ak listed l
+  noop : noopF listed l = true → unchanged
+
+theorem listEv_accepted {m : Mon} {l : Line} {o : Obs} {unchanged : Prop}
+    (F : ListEvFacts m.kind.allowKind m.ghost l o.lev unchanged)
+    (hu : unchanged → m.prev = none ∨ m.prev = some o.st) : vListEv m l o = none := by
+  unfold vListEv
+  by_cases hk : ¬ m.kind.isList
+  · rw [if_pos hk]
+  · rw [if_neg hk, if_neg, if_neg]
+    · rintro ⟨-, h⟩
+      exact h F.events
+    · rintro ⟨-, hn, h⟩
+      rcases h with h | ⟨h1, h2⟩
+      · exact h (by rw [F.events]; exact expected_noop hn)
+      · rcases hu (F.noop hn) with hp | hp
+        · rw [hp] at h1; cases h1
+        · exact h2 hp
+
+/-- a fungible entry point emits no list event (the module's log is untouched) -/
+theorem listEv_tok (ak : Bool) (g : Nat → Bool) (k : Kind) (a auth : List Nat) (n : Nat) (log : List GEvent)
+    (unchanged : Prop) :
+    ListEvFacts ak g ⟨.fungible k, a, auth, n⟩ ((log.drop log.length).filter isListEv) unchanged := by
+  refine ⟨?_, ?_⟩
+  · rw [List.drop_length]; rfl
+  · intro h; simp [noopF, setOf] at h
+
+/-- a list change emits the matching event exactly when the status flips -/
+theorem listEv_set (ak on w : Bool) (g : Nat → Bool) (u : Nat) (rest auth : List Nat) (n : Nat)
+    (log log' : List GEvent) (unchanged : Prop)
+    (hlog : log' = if g u = on then log else log ++ [evOf ak on u]) (hun : g u = on → unchanged) :
+    ListEvFacts ak g ⟨.gate (setName on w), u :: rest, auth, n⟩ ((log'.drop log.length).filter isListEv) unchanged := by
+  refine ⟨?_, ?_⟩
+  · simp only [expectedEvF, setOf_setName, List.head?_cons]
+    rw [hlog]
+    by_cases h : g u = on
+    · rw [if_pos h, if_pos h, List.drop_length]; rfl
+    · rw [if_neg h, if_neg h, List.drop_left]
+      simp [isListEv_evOf]
+  · intro h
+    simp only [noopF, setOf_setName, List.head?_cons] at h
+    exact hun (by simpa using h)
+
+theorem alib_tok_log {c : Cfg} {s s' : LTok} {auth : List Nat} {o : Fungible.Op}
+    (h : ALib.apply c s auth (.tok o) = .ok s') : s'.log = s.log := by
+  cases o <;> simp only [ALib.apply, AllowList.transfer, AllowList.transferFrom, AllowList.approve,
+    AllowList.burn, AllowList.burnFrom] at h
+  case advance => injection h with h; subst h; rfl
+  case mint => obtain ⟨t, -, e⟩ := withTok_ok h; subst e; rfl
+  all_goals
+    split at h
+    · cases h
+    · obtain ⟨t, -, e⟩ := withTok_ok h; subst e; rfl
+
+theorem blib_tok_log {c : Cfg} {s s' : LTok} {auth : List Nat} {o : Fungible.Op}
+    (h : BLib.apply c s auth (.tok o) = .ok s') : s'.log = s.log := by
+  cases o <;> simp only [BLib.apply, BlockList.transfer, BlockList.transferFrom, BlockList.approve,
+    BlockList.burn, BlockList.burnFrom] at h
+  case advance => injection h with h; subst h; rfl
+  case mint => obtain ⟨t, -, e⟩ := withTok_ok h; subst e; rfl
+  all_goals
+    split at h
+    · cases h
+    · obtain ⟨t, -, e⟩ := withTok_ok h; subst e; rfl
+
+theorem aex_tok_log {c : Cfg} {s s' : LEx} {auth : List Nat} {o : Fungible.Op}
+    (h : AEx.apply c s auth (.tok o) = .ok s') : s'.t.log = s.t.log := by
+  cases o <;> simp only [AEx.apply] at h
+  case mint => cases h
+  case advance => injection h with h; subst h; rfl
+  all_goals
+    obtain ⟨t, ht, e⟩ := withT_ok h
+    subst e
+  · exact alib_tok_log (c := c) (o := .transfer _ _ _) ht
+  · exact alib_tok_log (c := c) (o := .transferFrom _ _ _ _) ht
+  · exact alib_tok_log (c := c) (o := .approve _ _ _ _) ht
+  · exact alib_tok_log (c := c) (o := .burn _ _) ht
+  · exact alib_tok_log (c := c) (o := .burnFrom _ _ _) ht
+
+theorem bex_tok_log {c : Cfg} {s s' : LEx} {auth : List Nat} {o : Fungible.Op}
+    (h : BEx.apply c s auth (.tok o) = .ok s') : s'.t.log = s.t.log := by
+  cases o <;> simp only [BEx.apply] at h
+  case mint => cases h
+  case burn => cases h
+  case burnFrom => cases h
+  case advance => injection h with h; subst h; rfl
+  all_goals
+    obtain ⟨t, ht, e⟩ := withT_ok h
+    subst e
+  · exact blib_tok_log (c := c) (o := .transfer _ _ _) ht
+  · exact blib_tok_log (c := c) (o := .transferFrom _ _ _ _) ht
+  · exact blib_tok_log (c := c) (o := .approve _ _ _ _) ht
+
+/-- the list functions behind the entry points of the four list machines -/
+theorem alib_set_eq {c : Cfg} {s s' : LTok} {auth : List Nat} {u : Nat} {on : Bool} {x : Nat}
+    (h : ALib.apply c s auth (.setList u on x) = .ok s') : s' = setFn true on s u := by
+  cases on <;> simp only [ALib.apply] at h <;> injection h with h <;> exact h.symm
+
+theorem blib_set_eq {c : Cfg} {s s' : LTok} {auth : List Nat} {u : Nat} {on : Bool} {x : Nat}
+    (h : BLib.apply c s auth (.setList u on x) = .ok s') : s' = setFn false on s u := by
+  cases on <;> simp only [BLib.apply] at h <;> injection h with h <;> exact h.symm
+
+theorem aex_set_eq {c : Cfg} {s s' : LEx} {auth : List Nat} {u operator : Nat} {on : Bool}
+    (h : AEx.apply c s auth (.setList u on operator) = .ok s') : s' = { s with t := setFn true on s.t u } := by
+  cases on <;> simp only [AEx.apply] at h <;> obtain ⟨_, _, h⟩ := bind_eq_ok h <;> injection h with h <;>
+    exact h.symm
+
+theorem bex_set_eq {c : Cfg} {s s' : LEx} {auth : List Nat} {u operator : Nat} {on : Bool}
+    (h : BEx.apply c s auth (.setList u on operator) = .ok s') : s' = { s with t := setFn false on s.t u } := by
+  cases on <;> simp only [BEx.apply] at h <;> obtain ⟨_, _, h⟩ := bind_eq_ok h <;> injection h with h <;>
+    exact h.symm
 
 end OZ.Gates.Mon
